@@ -115,6 +115,18 @@ chk('C14', 'exploration', 'exhaustive enumeration of token strings and single-to
     'one-directional oracle as in the statement; grammar transcription bound to the .g4 files by a self-check; termination up to 5 s',
     'DESIGN.md section 5 C14')
 
+chk('C15', 'exploration', 'bounded exhaustive enumeration of formulas x spelling variants, real parser + monitor vs canonical spelling and reference',
+    'for every formula with <=2 operators (and arithmetic/predicate nestings) all spelling variants - aliases, both separators, 0-2 redundant parenthesis levels, with/without head and trailing ;, the minimally parenthesised spelling per the grammar order, LTL front end - '
+    'are parsed by the real parser and evaluated on all traces up to length 3; results must equal those of the fully parenthesised keyword spelling, which in turn equals the reference',
+    'precedence model read from StlParser.g4 at run time; equality of results on all short traces stands for "same monitor"',
+    'DESIGN.md section 5 C15')
+
+chk('C11', 'model_checking', 'exhaustive enumeration of all interleavings of calls on 2-3 specification objects + argument-purity wrapping + hash-seed subprocess matrix',
+    'all merge orders of the call sequences of two and three real specification objects that share texts, names and kinds are executed and every result compared with the isolated run; every evaluate/update of a workload is wrapped with deep-copy comparison of the arguments; '
+    'd1,d2,d1 repeatability for all ordered trace pairs; identical result digests under 8 (64) hash seeds',
+    'hash seeds: stated subset only; <= 3 calls per object',
+    'DESIGN.md section 5 C11')
+
 def main():
     props = [json.loads(l) for l in open(os.path.join(ROOT, 'properties.jsonl'))]
     checks = []
